@@ -14,16 +14,16 @@ import (
 )
 
 type Loader struct {
-	fset   *token.FileSet
-	pkgs   []*packages.Package
-	prog   *ssa.Program
-	spkgs  []*ssa.Package
-	funcs  map[string]*ssa.Function // pkgpath::relname
-	byPath map[string]*packages.Package
-	loaded map[string]bool
-	byName map[string]*types.Package
-	constGlobals map[*ssa.Global]*ssa.Const // package-level variables initialised with a constant and never assigned again in the loaded packages
-	nonNilGlobals map[*ssa.Global]bool      // package-level error variables initialised with errors.New(...) and never assigned again
+	fset          *token.FileSet
+	pkgs          []*packages.Package
+	prog          *ssa.Program
+	spkgs         []*ssa.Package
+	funcs         map[string]*ssa.Function // pkgpath::relname
+	byPath        map[string]*packages.Package
+	loaded        map[string]bool
+	byName        map[string]*types.Package
+	constGlobals  map[*ssa.Global]*ssa.Const // package-level variables initialised with a constant and never assigned again in the loaded packages
+	nonNilGlobals map[*ssa.Global]bool       // package-level error variables initialised with errors.New(...) and never assigned again
 }
 
 func loadEnv() []string {
